@@ -445,6 +445,14 @@ def free_call(tr, name, sig, argn, n):
         if name == 'addressof':
             return tr.addr(argn[0])
         return tr.e(argn[0])
+    if name == 'memcpy' and len(argn) == 3:
+        sz = strip(argn[2])
+        while sz.get('kind') in ('ImplicitCastExpr', 'CStyleCastExpr') and sz.get('inner'):
+            sz = strip(sz['inner'][0])
+        if sz.get('kind') == 'IntegerLiteral' and int(sz['value']) <= 16:
+            # small constant-size copy: byte-wise, loop-free (CBMC's array_replace primitive trips the loop-contract
+            # frame check for arrays declared inside the loop body)
+            return 'MEMCPY_%s(%s, %s)' % (sz['value'], tr.e(argn[0]), tr.e(argn[1]))
     if name in STD_FREE and ('void *' in sig or 'const char *' in sig):
         return '%s(%s)' % (STD_FREE[name], ', '.join(tr.e(a) for a in argn))
     if name == 'distance':
